@@ -4,6 +4,7 @@ package main
 
 import (
 	"fmt"
+	"runtime"
 	"runtime/debug"
 	"strings"
 	"sync"
@@ -61,7 +62,18 @@ func c12WhichPoolHolds(pools util.BytesPoolBy2n, buf *[]byte) int {
 	return found
 }
 
+// c12OneP: the probes put an object into a sync.Pool and take it out again; that is only reliable while the goroutine
+// stays on one P (an object in another P's private slot cannot be reached)
+func c12OneP() func() {
+	if runtime.GOMAXPROCS(0) == 1 {
+		return func() {}
+	}
+	old := runtime.GOMAXPROCS(1)
+	return func() { runtime.GOMAXPROCS(old) }
+}
+
 func c12RunClass(c *Case) (out string, fails []Fail) {
+	defer c12OneP()()
 	n := int(c.Z[0])
 	old := debug.SetGCPercent(-1)
 	defer debug.SetGCPercent(old)
@@ -107,6 +119,7 @@ func c12RunClass(c *Case) (out string, fails []Fail) {
 }
 
 func c12RunPut(c *Case) (string, []Fail) {
+	defer c12OneP()()
 	l := int(c.Z[0])
 	old := debug.SetGCPercent(-1)
 	defer debug.SetGCPercent(old)
@@ -340,6 +353,7 @@ func c12RunScript(c *Case) (out string, fails []Fail) {
 }
 
 func c12GenPool(g *Gen) {
+	defer c12OneP()()
 	r := g.R
 	cls := func(n int64) {
 		g.Count("class")
